@@ -104,7 +104,7 @@ def run(chk):
     cases = pipefam.load_corpus("C02")
     for i in range(n):
         cases.append(gen.gen_pair(r, max_chrom=2, max_genes=2, max_tes=40))
-    cases += [gen.gen_large_group(r, sz) for sz in ([700] if chk.tier == "quick" else [300, 700, 1500, 2600])]
+    cases += [gen.gen_large_group(r, sz) for sz in ([700, 2300] if chk.tier == "quick" else [300, 700, 1500, 2300, 2600, 4200])]
     # every fourth case is revised in an output directory that an earlier annotation pair (other file names; the same genome id, one that extends it, or another)
     # has been through: the revision must be that of the input given, whatever intermediates the directory holds
     befores = [cases[i - 1] if (i % 4 == 3 and i > 0) else None for i in range(len(cases))]
